@@ -14,6 +14,7 @@ import (
 
 	"verif/checker/internal/flow"
 	"verif/checker/internal/load"
+	"verif/checker/internal/ref"
 )
 
 // calleeDecl returns the declaration of a statically resolved callee that lives in the module.
@@ -2174,4 +2175,160 @@ func (c *Ctx) r0153(pk *packages.Package) {
 		})
 	}
 	c.R.Exists(rule, "js/assignments that discard an initialiser", "-", fmt.Sprintf("%d found, %d of them outside a let declaration", n, bad))
+}
+
+// R01.54: the expression of the preceding statement moves only into a head that is evaluated first, once, in the list's scope.
+func (c *Ctx) r0154(pk *packages.Package) {
+	const rule = "R01.54"
+	c.R.Rule(rule, "optimizeStmtList merges an expression statement into the statement behind it (`a;return b` → `return a,b`, `a;if(b)…` → `if(a,b)…`, `a;while(b)…` → `for(a;b;)…`). That keeps the evaluation only where the receiving slot is evaluated first, exactly once, and in the scope of the list: ref.JSHeadEvaluatedFirst lists those slots by node type and field (ECMA-262 §14: the discriminant of switch, the object of with, the test of if, the init of for, the operand of return and throw). The test of while / do-while and the update of for are evaluated repeatedly; the object of for-in / for-of is evaluated in a scope in which the names of a let / const head are in their temporal dead zone (§14.7.5.6 ForIn/OfHeadEvaluation) — `f(b);for(let k in c)` → `for(let k in f(b),c)` throws when the renamer gives k the name of b. Every assignment in optimizeStmtList whose right-hand side mentions the Value of the preceding *js.ExprStmt stores into a listed slot")
+	info := pk.TypesInfo
+	fd := c.fn(rule, pk, "optimizeStmtList")
+	if fd == nil {
+		return
+	}
+	// the locals that hold the preceding expression statement: v, ok := list[i-1].(*js.ExprStmt)
+	prev := map[types.Object]bool{}
+	ast.Inspect(fd.Body, func(z ast.Node) bool {
+		as, ok := z.(*ast.AssignStmt)
+		if !ok || as.Tok != token.DEFINE || len(as.Rhs) != 1 || len(as.Lhs) == 0 {
+			return true
+		}
+		ta, ok := ast.Unparen(as.Rhs[0]).(*ast.TypeAssertExpr)
+		if !ok || ta.Type == nil || !strings.HasSuffix(str(ta.Type), "js.ExprStmt") {
+			return true
+		}
+		ie, ok := ast.Unparen(ta.X).(*ast.IndexExpr)
+		if !ok {
+			return true
+		}
+		if be, ok := ast.Unparen(ie.Index).(*ast.BinaryExpr); ok && be.Op == token.SUB {
+			if id, ok := as.Lhs[0].(*ast.Ident); ok && info.Defs[id] != nil {
+				prev[info.Defs[id]] = true
+			}
+		}
+		return true
+	})
+	mentions := func(e ast.Node) bool {
+		hit := false
+		ast.Inspect(e, func(z ast.Node) bool {
+			if sel, ok := z.(*ast.SelectorExpr); ok && sel.Sel.Name == "Value" {
+				if id, ok := ast.Unparen(sel.X).(*ast.Ident); ok && prev[info.Uses[id]] {
+					hit = true
+				}
+			}
+			return !hit
+		})
+		return hit
+	}
+	short := func(t types.Type) string {
+		n := namedTypeName(derefType(t))
+		if i := strings.LastIndex(n, "."); i >= 0 {
+			n = n[i+1:]
+		}
+		return n
+	}
+	n := 0
+	seen := map[string]int{}
+	ast.Inspect(fd.Body, func(z ast.Node) bool {
+		as, ok := z.(*ast.AssignStmt)
+		if !ok {
+			return true
+		}
+		for i, r := range as.Rhs {
+			if !mentions(r) || i >= len(as.Lhs) {
+				continue
+			}
+			var slots []string
+			if sel, ok := ast.Unparen(as.Lhs[i]).(*ast.SelectorExpr); ok {
+				slots = append(slots, short(info.TypeOf(sel.X))+"."+sel.Sel.Name)
+			} else {
+				// a node built around the expression: the field of the composite literal that receives it
+				ast.Inspect(r, func(y ast.Node) bool {
+					cl, ok := y.(*ast.CompositeLit)
+					if !ok {
+						return true
+					}
+					for _, el := range cl.Elts {
+						if kv, ok := el.(*ast.KeyValueExpr); ok && mentions(kv.Value) {
+							slots = append(slots, short(info.TypeOf(cl))+"."+str(kv.Key))
+						}
+					}
+					return true
+				})
+				if len(slots) == 0 {
+					slots = append(slots, nospace(str(as.Lhs[i])))
+				}
+			}
+			for _, slot := range slots {
+				n++
+				seen[slot]++
+				_, ok := ref.JSHeadEvaluatedFirst[slot]
+				c.R.Check(ok, rule, fmt.Sprintf("js.optimizeStmtList/preceding expression moved into %s#%d", slot, seen[slot]), c.pos(as), slot+" is evaluated first, once, in the scope of the list ("+ref.JSHeadEvaluatedFirst[slot]+")",
+					"the expression of the preceding statement is moved into "+slot+", which is not a slot that is evaluated first, exactly once and in the scope of the statement list: for the object of a for-in / for-of with a let or const head the names of the head are in their temporal dead zone (`f(b);for(let k in c)h(k)` → `for(let k in f(b),c)h(k)`, where the renamer may give k the name of b: ReferenceError); the test of a loop is evaluated on every iteration")
+			}
+		}
+		return true
+	})
+	c.R.Floor(rule, "moves of the preceding expression statement", n, 8)
+}
+
+// R01.55: the truth of a negated numeric literal is decided by the predicate that decides it everywhere else.
+func (c *Ctx) r0155(pk *packages.Package) {
+	const rule = "R01.55"
+	c.R.Rule(rule, "`!123` is printed as `!1` and `!0.0` as `!0`. Whether a numeric literal is zero is not visible from its digits alone: `1e-400` underflows to 0, so `!1e-400` is true. js.isFalsy knows that (it gives no verdict for a literal with a negative exponent). In jsMinifier.minifyExpr, case *js.UnaryExpr, every write of zeroBytes / oneBytes that stands for a negated numeric literal (it is dominated by a test of the literal's TokenType against js.DecimalToken) is dominated by the verdict of js.isFalsy / js.isTruthy (sibling agreement: one predicate decides the truth of literals)")
+	info := pk.TypesInfo
+	fd := c.fn(rule, pk, "jsMinifier.minifyExpr")
+	if fd == nil {
+		return
+	}
+	g := c.graph(pk, fd)
+	n := 0
+	for _, y := range g.Nodes {
+		a := y.Ast()
+		if a == nil || y.Kind != flow.KStmt || c.caseLabel(a) != "case *js.UnaryExpr" {
+			continue
+		}
+		writes := ""
+		for _, call := range findCalls(info, a, false, load.Mod+"/js.(jsMinifier).write") {
+			if len(call.Args) == 1 {
+				if s := nospace(str(call.Args[0])); s == "zeroBytes" || s == "oneBytes" {
+					writes = s
+				}
+			}
+		}
+		if writes == "" {
+			continue
+		}
+		numeric, verdict := false, false
+		for _, f := range g.DomFacts(y) {
+			if f.Test.Kind != flow.KCond {
+				continue
+			}
+			if id, ok := ast.Unparen(f.Test.Expr).(*ast.Ident); ok && f.Value {
+				if d := c.singleDef(pk, id); d != nil {
+					if ce, ok := ast.Unparen(d).(*ast.CallExpr); ok {
+						if cn := calleeName(info, ce); strings.HasSuffix(cn, "/js.isFalsy") || strings.HasSuffix(cn, "/js.isTruthy") {
+							verdict = true
+						}
+					}
+				}
+			}
+		}
+		// the branch of the numeric literals: an enclosing if whose condition compares with js.DecimalToken and whose body holds the write
+		for x := c.P.Parent(a); x != nil; x = c.P.Parent(x) {
+			if ifs, ok := x.(*ast.IfStmt); ok && ifs.Body.Pos() <= a.Pos() && a.End() <= ifs.Body.End() && mentionsObj(info, ifs.Cond, pjs+".DecimalToken") {
+				numeric = true
+			}
+			if _, ok := x.(*ast.CaseClause); ok {
+				break
+			}
+		}
+		if !numeric {
+			continue
+		}
+		n++
+		c.R.Check(verdict, rule, fmt.Sprintf("js.jsMinifier.minifyExpr/case *js.UnaryExpr/%s written for a negated number#%d behind the verdict of isFalsy", writes, n), c.pos(a), "dominated by the ok result of js.isFalsy / js.isTruthy",
+			"the truth of the numeric literal is decided on the spot (from the rounded digits): `x=!1e-400` → `x=!1` (true → false), while isFalsy gives no verdict for a literal that may underflow")
+	}
+	c.R.Floor(rule, "writes for a negated numeric literal", n, 2)
 }
